@@ -108,6 +108,7 @@ class Intc(MemoryType):
         self.lines = lines if lines is not None else {'irq': False, 'fiq': False}
         self.acks = []
         self.on_grant = None
+        self.on_patch = None
 
     def read(self, address, size):
         v = (1 if self.lines['irq'] else 0) | (2 if self.lines['fiq'] else 0)
@@ -125,6 +126,11 @@ class Intc(MemoryType):
             self.acks.append('grant')
             if self.on_grant is not None:
                 self.on_grant()
+        elif address < 16:
+            # supervisor call from an undefined-instruction handler: "patch the faulting instruction into a NOP"
+            self.acks.append('patch')
+            if self.on_patch is not None:
+                self.on_patch()
 
 
 def make_device(d, lines=None):
